@@ -21,6 +21,7 @@ def run(ctx):
         cs = W.gen_sentences(ctx, f"C03-gen{k}", alpha, {0, 1}, maxn, ntags, rows, thm)
         sents += [c["sent"] for c in cs]
     W.round_trip(ctx, binp, "tok", sents, "round")
+    W.random_round_trips(ctx, binp, "tok", 6000 if ctx.quick else 80000)
     W.idempotence(ctx, binp, "tok", 5 if ctx.quick else 6, {97, 12354, 32, 47, 92, 0})
     ctx.exhaustive = True
 
